@@ -130,6 +130,87 @@ def population(rng, quick):
     return {"domain": doms, "complex": cplx, "macrostate": macs, "reaction_c": rc, "reaction_m": rm}
 
 
+NAME_POOL = ("r1", "r2", "r3", "A", "B", "x", "fw", "bw")
+
+
+def names_cases(rng, pop, quick):
+    """histories of sessions for the op c10_names: per session 2-4 different objects of one kind, each requested in the
+    base class and in the subclass; the two registries give them names from one small pool independently (so a name denotes
+    different objects in the two registries, and an object has two names), some are left to the automatic name, some are
+    used as set members before they are compared; later sessions re-use the names for other objects"""
+    cases = []
+    per_kind = {"complex": 12, "macrostate": 8, "reaction_c": 16, "reaction_m": 8}
+    for kind, n_cases in per_kind.items():
+        specs = pop[kind]
+        for _ in range(n_cases * (1 if quick else 10)):
+            sessions = []
+            for _s in range(rng.randrange(1, 4)):
+                n = rng.randrange(2, 5)
+                chosen = [rng.choice(specs) for _ in range(n)]
+                pool = rng.sample(NAME_POOL, n) if rng.random() < 0.7 else list(NAME_POOL[:n])
+                sess = []
+                for k in (0, 1):
+                    names = list(pool)
+                    if k == 1:
+                        how = rng.randrange(4)
+                        if how == 0: names.reverse()
+                        elif how == 1: rng.shuffle(names)
+                        elif how == 2: names = rng.sample(NAME_POOL, n)
+                        # how == 3: the same names in both registries
+                    for sp, nm in zip(chosen, names):
+                        auto = kind != "macrostate" and rng.random() < 0.15
+                        sess.append([sp, None if auto else nm, k, rng.random() < 0.5])
+                if kind == "macrostate":
+                    # a macrostate is named after one of its members: the registries choose different members (the op calls
+                    # the complexes A, B, C, ... in order of appearance)
+                    sess = [[sp, rng.choice([None, 0, 1, 2]), k, u] for sp, nm, k, u in sess]
+                if rng.random() < 0.5:
+                    rng.shuffle(sess)
+                sessions.append(sess)
+            cases.append(("c10_names", ["names", kind, sessions]))
+    return cases
+
+
+def check_names(r):
+    """direct statement: within a session, == exactly when the canonical forms are equal (names do not matter), equal
+    objects are equivalent in the order, have equal hashes, are found in a set / as a dictionary key and make a set of one"""
+    for s, (keys, names, incl, rel) in enumerate(r):
+        for i in range(len(keys)):
+            for j in range(len(keys)):
+                eq, ne, le, ge, heq, inset, setlen, lookup = rel[i][j]
+                same = keys[i] == keys[j]
+                who = f"session {s}: objects #{incl[i]} {names[i]!r} and #{incl[j]} {names[j]!r}"
+                if eq != same or ne == eq:
+                    return f"{who}: == is {eq}, != is {ne}, canonical forms are {'equal' if same else 'different'}"
+                if same and not (le and ge):
+                    return f"{who}: equal objects are not equivalent in the order"
+                if same and not heq:
+                    return f"{who}: equal objects (equal canonical forms) with different hashes"
+                if inset != same or lookup != same or setlen != (1 if same else 2):
+                    return f"{who}: canonical forms {'equal' if same else 'different'}, but y in {{x}} is {inset}, {{x: 1}}[y] found: {lookup}, len({{x, y}}) = {setlen}"
+    return None
+
+
+def shrink_names(case, fails):
+    """fewer sessions, then fewer objects per session, as long as the case still fails in a fresh process"""
+    _, kind, sessions = case
+    budget = 40
+    changed = True
+    while changed and budget > 0:
+        changed = False
+        cands = [sessions[:i] + sessions[i + 1:] for i in range(len(sessions)) if len(sessions) > 1]
+        cands += [sessions[:i] + [sessions[i][:j] + sessions[i][j + 1:]] + sessions[i + 1:]
+                  for i in range(len(sessions)) for j in range(len(sessions[i])) if len(sessions[i]) > 2]
+        for c in cands:
+            budget -= 1
+            if budget < 0:
+                break
+            if fails(["names", kind, c]):
+                sessions, changed = c, True
+                break
+    return ["names", kind, sessions]
+
+
 def expected_ops(ka, kb, kind):
     if kind == "domain":
         na, nb = ka[0], kb[0]
@@ -275,13 +356,46 @@ def run(ctx):
                                   "what": f"{rq[1][0]}.{attr}: raised={raised} unchanged={unchanged}",
                                   "snippet": f"# harness op c10_readonly {rq[1]!r}"})
         ctx.cov["correspondence"]["readonly"] = {"cases": len(ro)}
+        # names are not identity: sessions of named objects in two registries, names re-used (drawn after all older draws)
+        nc = names_cases(rng, pop, quick)
+
+        def names_what(arg):
+            r = run_impl([("c10_names", arg)])[0]
+            if isinstance(r, Err):
+                return None if r.kind in ("SingletonError", "ObjectInitError") else f"raised {r.kind}"
+            return check_names(r)
+        n_bad, n_pairs_seen = 0, 0
+        for rq, r in zip(nc, run_impl(nc)):
+            if isinstance(r, Err):
+                what = None if r.kind in ("SingletonError", "ObjectInitError") else f"raised {r.kind}"
+            else:
+                what = check_names(r)
+                n_pairs_seen += sum(len(x[0]) ** 2 for x in r)
+            if what:
+                n_bad += 1
+                if n_bad <= 3:
+                    # the batch shares processes between cases: what is reported must fail on its own in a fresh process
+                    if names_what(rq[1]):
+                        small = shrink_names(rq[1], lambda a: names_what(a) is not None)
+                        found.append({"key": {"kind": small[1], "sessions": small[2]}, "input": small,
+                                      "what": names_what(small) or what,
+                                      "snippet": f"# harness op c10_names {small!r} (harness/impl/compare.py)"})
+                    else:
+                        found.append({"key": {"kind": rq[1][1], "sessions": rq[1][2]}, "input": rq[1],
+                                      "what": what + " (only after the other cases of the batch ran in the same process)",
+                                      "snippet": f"# harness op c10_names {rq[1]!r} (harness/impl/compare.py)"})
+        ctx.cov["correspondence"]["names"] = {"cases": len(nc), "ordered_pairs": n_pairs_seen, "failing": n_bad}
+        ctx.add_eval(len(nc), len(nc))
     ctx.cov["rule"] = ("random pairs from generated populations per kind (domains over 3 registries, complexes incl. pairs "
                        "differing only in structure, macrostates, reactions differing only in type, over complexes and over "
                        "macrostates); the implementation reports canonical forms and operator results, the model computes the "
                        "operators from the canonical forms; non-trivial = distinct key pairs; domain names include families with one prefix "
                        "(indices of 1-3 digits, leading zeros, sub-domain suffixes, complements) and pairs within a family; "
                        "tuples of 3-6 objects alive together: totality, transitivity, coherence of the six operators and "
-                       "sorted()/min()/max() of several arrangements (direct statement, no model)")
+                       "sorted()/min()/max() of several arrangements (direct statement, no model); sessions of named complexes, "
+                       "macrostates and reactions in the base class and a subclass, names chosen independently per registry and "
+                       "re-used by later sessions of the same process for other objects: ==, order, hashes, set membership, "
+                       "dictionary lookup of every pair follow the canonical forms (direct statement)")
     ctx.cov["partial"] = ["views are copies / attribute assignment raises: runtime behaviour, observed on every run, not a theorem"]
     if found and res["ok"] and not diffs:
         for f in found[:10]:
@@ -294,6 +408,14 @@ def replay(data):
     inp = data.get("input")
     if not inp:
         print(json.dumps(data.get("broken_links"))[:2000]); return 1
+    if inp[0] == "names":
+        r = run_impl([("c10_names", inp)])[0]
+        print(r)
+        if isinstance(r, Err):
+            return 1
+        what = check_names(r)
+        print(what)
+        return 1 if what else 0
     op = "c10_order" if len(inp) == 4 else "c10_pair" if len(inp) == 3 else "c10_readonly"
     r = run_impl([(op, inp)])[0]
     print(r)
